@@ -216,8 +216,8 @@ theorem cinv_change_at {s s2 : St} (h : CInv s) {p : Bytes} (hp : CleanPath p) (
     (hview : ∀ q, q ≠ fsPath p → Fs.viewAt s2.fs q = Fs.viewAt s.fs q)
     (hhs : s2.hs = s.hs) (hlru : Lru.Inv s2.ac)
     (hsub : ∀ e ∈ s2.ac.entries, e ∈ s.ac.entries ∧ e.key ≠ p)
-    (hcfg : s2.cfg = s.cfg := by rfl) : CInv s2 := by
-  refine cinv_step h hhs hw hlru ?_ hcfg
+    (hcfg : s2.cfg = s.cfg := by rfl) (hdci : DcI s2.dc := by dci_tac) : CInv s2 := by
+  refine cinv_step h hhs hw hlru ?_ hcfg hdci
   intro e he
   obtain ⟨hm, hk⟩ := hsub e he
   refine ⟨hm, hview _ ?_⟩
@@ -483,8 +483,8 @@ theorem cinv_change_under {s s2 : St} (h : CInv s) {p1 p2 : Bytes} (hp1 : CleanP
     (hview : ∀ q, ¬ fsPath p1 <+: q → ¬ fsPath p2 <+: q → Fs.viewAt s2.fs q = Fs.viewAt s.fs q)
     (hhs : s2.hs = s.hs) (hlru : Lru.Inv s2.ac)
     (hsub : ∀ e ∈ s2.ac.entries, e ∈ s.ac.entries ∧ Lru.underPrefix e.key p1 = false ∧ Lru.underPrefix e.key p2 = false)
-    (hcfg : s2.cfg = s.cfg := by rfl) : CInv s2 := by
-  refine cinv_step h hhs hw hlru ?_ hcfg
+    (hcfg : s2.cfg = s.cfg := by rfl) (hdci : DcI s2.dc := by dci_tac) : CInv s2 := by
+  refine cinv_step h hhs hw hlru ?_ hcfg hdci
   intro e he
   obtain ⟨hm, hk1, hk2⟩ := hsub e he
   have hkc := h.keys e hm
